@@ -130,9 +130,9 @@ static void canon(qtreetbl_t *t, const model_t *m, int withwalk, char *out) {
 }
 
 /* ------------------------------------------------------------------ operations */
-enum { OP_PUT, OP_REMOVE, OP_CLEAR, OP_WALK, OP_ABANDON, OP_NEAREST, OP_NEARWALK };
+enum { OP_PUT, OP_REMOVE, OP_CLEAR, OP_WALK, OP_ABANDON, OP_NEAREST, OP_NEARWALK, OP_CYCLE };
 typedef struct { int kind, k, v, j, nm; const char *label; } op_t;
-static op_t OPS[512]; static int NOPS; static int MODE_WALK;
+static op_t OPS[512]; static int NOPS; static int MODE_WALK, WITH_CYCLES;
 static blob_t PROBE[2 * MAXU + 2]; static int NPROBE;
 
 static int is_strcfg(void) { return CFG == 0 || CFG == 3; }
@@ -269,6 +269,7 @@ static int apply(qtreetbl_t *t, model_t *m, const op_t *op, int check, const cha
         case OP_CLEAR: t->clear(t); memset(m->present, 0, sizeof m->present); break;
         case OP_WALK: do_walk(t, m, op->nm, check, after); break;
         case OP_ABANDON: do_abandon(t, m, op->j); break;
+        case OP_CYCLE: for (int i = 0; i < op->j; i++) do_abandon(t, m, 1); break;   /* hundreds of traversal starts in one step */
         case OP_NEAREST: return do_nearest(t, m, op->k, 0, op->nm, check, after);
         case OP_NEARWALK: return do_nearest(t, m, op->k, 1, op->nm, check, after);
     }
@@ -284,6 +285,9 @@ static void build_ops(void) {
     OPS[NOPS++] = (op_t){OP_WALK, 0, 0, 0, 1, "qtreetbl_getnext"};
     OPS[NOPS++] = (op_t){OP_ABANDON, 0, 0, 1, 0, "qtreetbl_getnext"};
     OPS[NOPS++] = (op_t){OP_ABANDON, 0, 0, 2, 0, "qtreetbl_getnext"};
+    /* depth-bounded runs only (in a closure they add no state): k one-step walks as one operation, k around a full
+     * cycle of the 8-bit traversal epoch, so that "more than 256 traversal starts" is within reach of a short history */
+    if (WITH_CYCLES) for (int k = 253; k <= 258; k++) OPS[NOPS++] = (op_t){OP_CYCLE, 0, 0, k, 0, "qtreetbl_getnext"};
     /* probes: below the minimum, every key, every gap / above the maximum */
     NPROBE = 0;
     PROBE[NPROBE].n = 2; memcpy(PROBE[NPROBE].b, "A", 2); NPROBE++;
@@ -326,7 +330,7 @@ static int transition(const uint16_t *hist, int d, int opi, char *ckey, int verb
         if (apply(t, &m, &OPS[opi], 1, after) < 0) dead = 1;
     }
     if (!dead) {
-        check_structure(t, &m, after);
+        { long w0 = vc_nviol; check_structure(t, &m, after); n_soft += vc_nviol - w0; }   /* shape findings (C02) do not prune the map/traversal search */
         if (!MODE_WALK) observe_map(t, &m, after);
         canon(t, &m, MODE_WALK, ckey);
         verify_held("while the container was still alive");
@@ -401,7 +405,7 @@ static int replay(const char *key) {
     /* map:cfg:U:NV:ops  |  walk:U:epoch:ops */
     const char *p;
     if (!strncmp(key, "map:", 4)) { MODE_WALK = 0; int off; sscanf(key + 4, "%d:%d:%d:%n", &CFG, &U, &NV, &off); p = key + 4 + off; }
-    else if (!strncmp(key, "walk:", 5)) { MODE_WALK = 1; CFG = 0; NV = 1; int off; sscanf(key + 5, "%d:%d:%n", &U, &START_EPOCH, &off); p = key + 5 + off; }
+    else if (!strncmp(key, "walk:", 5)) { MODE_WALK = 1; CFG = 0; NV = 1; int off; sscanf(key + 5, "%d:%d:%n", &U, &START_EPOCH, &off); p = key + 5 + off; WITH_CYCLES = U >= 3; }
     else return 1;
     setup_universe(); build_ops();
     static uint16_t hist[4096]; int d = 0;
@@ -419,7 +423,7 @@ static int worker(int argc, char **argv) {
     if (argc < 5) return 1;
     int maxdepth = 0;
     if (!strcmp(argv[1], "map")) { MODE_WALK = 0; CFG = atoi(argv[2]); U = atoi(argv[3]); NV = atoi(argv[4]); }
-    else { MODE_WALK = 1; CFG = 0; NV = 1; U = atoi(argv[2]); maxdepth = atoi(argv[3]); START_EPOCH = atoi(argv[4]); }
+    else { MODE_WALK = 1; CFG = 0; NV = 1; U = atoi(argv[2]); maxdepth = atoi(argv[3]); START_EPOCH = atoi(argv[4]); WITH_CYCLES = maxdepth > 0; }
     setup_universe(); build_ops();
     int rc = search(maxdepth);
     if (rc == 2) vc_exhaustive = 0;
